@@ -229,6 +229,16 @@ fn candidates(w: &World, p: &Plan) -> Vec<(World, Plan)> {
         }
     }
     for (t, r) in &w.ai {
+        if let AiReply::RetryThen { code, times, then } = r {
+            let mut c = w.clone();
+            c.ai.insert(t.clone(), then.as_ref().clone());
+            out.push((c, p.clone()));
+            if *times > 1 {
+                let mut c = w.clone();
+                c.ai.insert(t.clone(), AiReply::RetryThen { code: *code, times: 1, then: then.clone() });
+                out.push((c, p.clone()));
+            }
+        }
         if r.is_fault() {
             let mut c = w.clone();
             c.ai.insert(t.clone(), AiReply::Text("OK".into()));
